@@ -76,6 +76,22 @@ func scnPrioCrashFailover(name string) *Scenario {
 	return s
 }
 
+// scnPrioCrashFailoverChain: as scnPrioCrashFailover with X at priority 4, plus C
+// (priority 3, takeover) which starts 1 ms after the heartbeat notification that sends B
+// (priority 2, takeover, a follower with a running watcher) into its takeover round: B's
+// read of A's record, C's takeover and the notification of C's record to B's watcher
+// overlap. Replies may arrive later than the store applied the operation.
+func scnPrioCrashFailoverChain(name string) *Scenario {
+	s := scnPrioCrashFailover(name)
+	s.Insts = []InstSpec{{ID: "X", Priority: 4}, {ID: "A", Priority: 1}, {ID: "B", Priority: 2, Takeover: true}, {ID: "C", Priority: 3, Takeover: true}}
+	// A's periodic check at 1503.007 ms finds the key gone, its Create lands 55 ms later
+	// (1558.007 ms); A's first heartbeat, and with it B's takeover round, at 1758.007 ms
+	s.Script = append(s.Script, Item{At: 1759*ms + 7*us, Actor: "startC", Do: "start", Inst: "C", Fixed: true})
+	s.SplitApply = true
+	s.Tags = map[string]string{}
+	return s
+}
+
 func c10Plan(tier string) []PlanItem {
 	var items []PlanItem
 	d := 1
@@ -126,6 +142,7 @@ func c10Plan(tier string) []PlanItem {
 		}
 	}
 	items = append(items, PlanItem{scnPrioCrashFailover("prio3/crash-failover-3-1-2T/prompt"), d})
+	items = append(items, PlanItem{scnPrioCrashFailoverChain("prio4/crash-failover-4-1-2T-3T/split"), d})
 	if tier == "thorough" {
 		items = append(items, PlanItem{scnPrio("prio4/1T-2T-1-2T/order0", []prioOpt{{1, true}, {2, true}, {1, false}, {2, true}}, []string{"A", "B", "C", "D"}, false), 1})
 	}
